@@ -8,6 +8,7 @@ use crate::exec::Violation;
 use crate::framework::{CheckDef, Judged, Tier};
 use crate::gen::*;
 use crate::model::{CurOp, Kind, ModeS, Status};
+use crate::disk::{FaultAction, FaultAt, FaultKind, FaultSpec};
 use crate::plan::*;
 use crate::rng::Rng;
 
@@ -50,7 +51,7 @@ fn base_plan(id: &str, case_seed: u64, opts: StoreOpts, keys: Vec<Vec<u8>>, step
 }
 
 /// Conflict history checker (C04) over the model's commit list.
-fn conflict_check(model: &crate::model::Model, failed: &[crate::exec::FailedCommit], plan: &Plan) -> Option<Violation> {
+pub(crate) fn conflict_check(model: &crate::model::Model, failed: &[crate::exec::FailedCommit], plan: &Plan) -> Option<Violation> {
 	let keys_of = |c: &crate::model::Commit| -> Vec<Vec<u8>> { c.writes.iter().map(|w| w.key.clone()).collect() };
 	let committed: Vec<&crate::model::Commit> = model.commits.iter().filter(|c| c.status == Status::Acked).collect();
 	for t2 in &committed {
@@ -369,13 +370,25 @@ fn gen_c08(case_seed: u64, _case: u64, _tier: Tier) -> Plan {
 		let mode = *rng.pick(&[ModeS::ReadWrite, ModeS::ReadWrite, ModeS::ReadWrite, ModeS::ReadOnly, ModeS::WriteOnly]);
 		steps.push(Step::Begin { a: 1, mode });
 		let len = rng.range(3, 40);
+		let explicit_ts = rng.chance(1, 3);
+		// with explicit timestamps concentrate on few keys so one key gets several pending versions
+		let hot = rng.range(1, 3) as u16;
 		let mut ended = false;
 		for _ in 0..len {
-			let k = if rng.chance(1, 25) { 0 } else { rng.range(1, nkeys as u64 - 1) as u16 };
+			let k = if rng.chance(1, 25) {
+				0
+			} else if explicit_ts && rng.chance(2, 3) {
+				rng.range(1, hot as u64) as u16
+			} else {
+				rng.range(1, nkeys as u64 - 1) as u16
+			};
+			// explicit-timestamp writes: several versions of one key may be pending inside one
+			// savepoint level (write() keeps entries whose explicit timestamps differ)
+			let ts = if explicit_ts && rng.chance(1, 2) { Some(rng.range(1, 6)) } else { None };
 			let s = match rng.below(20) {
-				0..=5 => Step::Set { a: 1, k, v: tags.next(if rng.chance(1, 8) { 0 } else { rng.range(1, 50) as u32 }), ts: None },
-				6 | 7 => Step::Delete { a: 1, k, ts: None },
-				8 => Step::SoftDelete { a: 1, k, ts: None },
+				0..=5 => Step::Set { a: 1, k, v: tags.next(if rng.chance(1, 8) { 0 } else { rng.range(1, 50) as u32 }), ts },
+				6 | 7 => Step::Delete { a: 1, k, ts },
+				8 => Step::SoftDelete { a: 1, k, ts },
 				9..=12 => Step::Get { a: 1, k },
 				13 => Step::Scan { a: 1, lo: None, hi: None, rev: rng.chance(1, 2) },
 				14 | 15 => Step::Savepoint { a: 1 },
@@ -642,6 +655,19 @@ fn gen_concurrent(case_seed: u64, tier: Tier, id: &str) -> Plan {
 		}
 	}
 	steps.push(Step::Probe);
+	if id == "C04" && rng.chance(1, 3) {
+		// failure / rollback paths of the pipeline: transient write errors on the commit log
+		// (the conflict map entries of the failing commit are rolled back). Reads are not
+		// C04's subject and a failed append has known read-side effects (F5): no probes.
+		steps.retain(|s| !matches!(s, Step::Probe));
+		let n_f = rng.range(1, 3);
+		for _ in 0..n_f {
+			let at = rng.below(steps.len() as u64) as usize;
+			let action = *rng.pick(&[FaultAction::Eio, FaultAction::Enospc, FaultAction::Short(5)]);
+			let spec = FaultSpec { at: FaultAt::Class { kind: FaultKind::Write, class: "wal".into(), nth: rng.range(1, 3) as u32 }, action, persistent: false, spent: false };
+			steps.insert(at, Step::Faults { specs: vec![spec] });
+		}
+	}
 	let mut p = base_plan(id, case_seed, opts, keys, steps);
 	p.async_yields = true;
 	p.gate_tasks = rng.chance(1, 2);
@@ -782,7 +808,7 @@ pub fn c10() -> CheckDef {
 		rule: "a case = one logical history of timestamped sets / soft deletes / hard deletes / replaces (non-decreasing timestamps per key, one write per key per transaction so that no two versions tie) executed under two physical plans (placements of rotate / flush / compaction / reopen) - one with the B+tree version index, one without - with history_with_options over option combinations (tombstones, ts range, limit; forward and backward), get_at at every used timestamp +-1 and plain scans, before and after flush/compaction/reopen. Oracle: model get_at / history (keys ascending, newest first, hard delete and replace erase everything older). non-trivial = >=2 commits and >=2 reads; distinct = op-log digests of both twins",
 		assumptions: &["retention 0 (unlimited) only; finite retention is not explored by this check", "with a limit only forward traversals are judged (which end a backward traversal keeps is not pinned down by the property)"],
 		components: COMPONENTS,
-		cases: |t| cases(t, 2000, 30000),
+		cases: |t| cases(t, 16000, 240000),
 		gen: gen_c10,
 		judge,
 		shrink_budget: 250,
@@ -884,7 +910,7 @@ pub fn c11() -> CheckDef {
 		rule: "two kinds of cases. (a) sessions with the value log on: value sizes {0, 1, threshold-1, threshold, threshold+1, 4 blocks, 700 B}, vlog files of 200-2048 bytes so one flush rotates files, overwrite/delete patterns that obsolete whole files, readers and open cursors held across flush / compaction / vlog clean-up, reopen; every value read (gets, both scans, after every physical step) is compared byte for byte with the model. (b) every third case: the C02 crash engine with the value log on and 256-1024 byte vlog files: crash images at file-operation boundaries under both crash models must recover every acknowledged value intact. evaluations = sessions + crash images. non-trivial = >=2 commits and >=2 reads (a) / a rotation or flush (b); distinct = op-log digests",
 		assumptions: &["as C02 for the crash leg", "pointer reachability is judged through reads: a dangling pointer shows up as a read error or wrong bytes"],
 		components: COMPONENTS,
-		cases: |t| cases(t, 1500, 20000),
+		cases: |t| cases(t, 8000, 120000),
 		gen: gen_c11,
 		judge: judge_c11,
 		shrink_budget: 200,
@@ -962,7 +988,7 @@ pub fn c14() -> CheckDef {
 		rule: "a case = writes (+flush/compaction) -> checkpoint at a quiescent point -> the checkpoint directory is copied and opened standalone -> more writes, flushes and compactions that create new tables / vlog files and reuse ids, with probes that warm the block and vlog caches -> restore -> probes -> more commits, flush, compaction, reopen -> probes (sometimes a second restore); vlog / versioning / version index on or off, caches 0-16 KiB. Oracle: after restore every read equals the model at the checkpoint, later commits layer on it, also after reopen; the standalone open equals the checkpoint state. non-trivial = >=2 commits and >=2 reads; distinct = op-log digest",
 		assumptions: &["checkpoints only at quiescent points (no commit in flight), as the property states"],
 		components: COMPONENTS,
-		cases: |t| cases(t, 1500, 20000),
+		cases: |t| cases(t, 8000, 120000),
 		gen: gen_c14,
 		judge,
 		shrink_budget: 200,
@@ -1048,7 +1074,7 @@ pub fn c17() -> CheckDef {
 		rule: "a case = 8-12 committers + readers with 1.5-2 KiB memtables, memtable stall threshold 2 and L0 stall threshold = compaction trigger (1-2), the store's REAL background tasks gated at their loop heads and released by plan steps, nested commits inside the task loops' pre-idle windows (lost wake-up window), close() issued at a random step while commits are in flight. Oracle (liveness): once the plan ends, every commit() returns (Ok or Err) and close() returns within a bounded number of scheduler turns with all tasks released; no panic. non-trivial = >=3 commit attempts with a parked phase; distinct = op-log digest ^ interleaving hash",
 		assumptions: &["spin-waits that a parallel thread would resolve cannot be told from livelock in a serialised simulator: yield points are never placed inside them", "liveness is judged only after the plan's scheduled steps end (then everything gets turns)"],
 		components: COMPONENTS,
-		cases: |t| cases(t, 3000, 40000),
+		cases: |t| cases(t, 24000, 320000),
 		gen: gen_c17,
 		judge,
 		shrink_budget: 200,
@@ -1069,7 +1095,7 @@ pub fn c01() -> CheckDef {
 		rule: "a case = one generated multi-transaction history: one writer, 2-5 readers (some sharing a start point), point gets, complete forward/backward scans, cursors kept open across other actors' steps, with rotation / flush / compaction rounds (1-3 levels, so bottom-level compaction is common) / vlog clean-up placed between any two reader operations, plus nested work inside the synchronous windows of Transaction::new, Compactor::write_merged_table and Snapshot::get. Oracle: every read equals model.state_at(reader horizon) ⊕ own writes for the reader's whole life. non-trivial = ≥4 reads, ≥2 commits and a flush or compaction; distinct = op-log digest ^ interleaving hash",
 		assumptions: &["synchronous windows are explored by nested execution on the same stack (A1 [B..] A2 orders only)", "no pre-emption inside iterator code"],
 		components: COMPONENTS,
-		cases: |t| cases(t, 4000, 60000),
+		cases: |t| cases(t, 32000, 480000),
 		gen: gen_c01,
 		judge,
 		shrink_budget: 250,
@@ -1083,7 +1109,7 @@ pub fn c04() -> CheckDef {
 		rule: "a case = 2-8 actors running read-write and write-only transactions over 3-6 hot keys, commit phases interleaved at the six async yield points of the commit pipeline, oracle GC interval drawn from {4,16,64,default}, optional nested burst of commits inside Transaction::new's load->register window. Oracle: conflict checker over the recorded history (no two committed transactions overlap in time on a key; TransactionRetry only when a GC/restore can explain it) and model equality of all probes. non-trivial = ≥3 commit attempts with at least one parked commit phase; distinct = op-log digest ^ interleaving hash",
 		assumptions: &["xxh3 fingerprint collisions are ignored", "serialised execution: atomics of the pipeline are not raced"],
 		components: COMPONENTS,
-		cases: |t| cases(t, 4000, 60000),
+		cases: |t| cases(t, 32000, 480000),
 		gen: |s, _c, t| gen_concurrent(s, t, "C04"),
 		judge,
 		shrink_budget: 250,
@@ -1097,7 +1123,7 @@ pub fn c05() -> CheckDef {
 		rule: "a case = 2-8 concurrent committers (batches of 1-8 entries, duplicate keys, arena sized so ArenaFull fires mid-batch) whose commit phases are parked/resumed at the async yield points in plan order, with probe readers begun between steps and inside the rotation window. Oracle: horizon rules (never inside a batch, never backwards, ≥ every returned commit) and probe reads == model.state_at(horizon). non-trivial = ≥3 commit attempts and a parked phase; distinct = op-log digest ^ interleaving hash",
 		assumptions: &["serialised execution at yield points: individual atomics of the lock-free ring are not raced"],
 		components: COMPONENTS,
-		cases: |t| cases(t, 4000, 60000),
+		cases: |t| cases(t, 32000, 480000),
 		gen: |s, _c, t| gen_concurrent(s, t, "C05"),
 		judge,
 		shrink_budget: 250,
@@ -1111,7 +1137,7 @@ pub fn c06() -> CheckDef {
 		rule: "a case = one logical history (sets, hard/soft deletes, re-insertions; 6-70 transactions) executed under two independently drawn physical plans (placements of rotate / flush / compaction rounds / clean reopen; level count 1-4, memtable 1.5-8 KiB, block 64-1024 B, restart interval, partition size, compression per level, bloom on/off, cache 0-64 KiB, vlog) with full query transcripts (get of every key, forward and backward scans) after every third transaction and at the end; each transcript must equal the model's, hence the twins equal each other. non-trivial = ≥2 commits and ≥2 reads; distinct = op-log digests of both twins",
 		assumptions: &["placement of background work is by plan (store tasks parked) in plan A; plan B lets them run freely in half the cases"],
 		components: COMPONENTS,
-		cases: |t| cases(t, 3000, 40000),
+		cases: |t| cases(t, 24000, 320000),
 		gen: gen_c06,
 		judge,
 		shrink_budget: 250,
@@ -1125,7 +1151,7 @@ pub fn c08() -> CheckDef {
 		rule: "a case = generated transaction programs (set / delete / soft delete, reads, scans, nested savepoints, partial rollbacks, commit / rollback / drop, all three modes, operations after close, empty key, empty values, adversarial byte-string keys) run inside the simulated store over a drawn physical layout with an observer transaction before/after and flush/compaction/reopen afterwards. Oracle: transaction overlay model per operation (return values, error kinds), observers see nothing pending. non-trivial = ≥2 commits and ≥2 reads; distinct = op-log digest",
 		assumptions: &["the write-set rules are a pure function of the program: the simulator contributes layout, observers and reopen legs (scope note in DESIGN.md)"],
 		components: COMPONENTS,
-		cases: |t| cases(t, 4000, 60000),
+		cases: |t| cases(t, 32000, 480000),
 		gen: gen_c08,
 		judge,
 		shrink_budget: 200,
@@ -1139,7 +1165,7 @@ pub fn c09() -> CheckDef {
 		rule: "a case = a key set spread by a physical plan over write-set, active + immutable memtables and tables on 1-4 levels (several versions and tombstones per key, 64-256 B blocks and partitions), then cursor programs of 3-30 steps (seek to an in-bounds target, seek_first, seek_last, next, prev with reversals at every position) over bounds both/lower-only/upper-only/none/empty/inverted. Oracle: model cursor over the sorted live-key list in [start,end): valid(), key(), value() after every call. non-trivial = ≥5 cursor operations; distinct = op-log digest",
 		assumptions: &["after the cursor has run off an end only seeks are issued (as the property states)"],
 		components: COMPONENTS,
-		cases: |t| cases(t, 3000, 40000),
+		cases: |t| cases(t, 24000, 320000),
 		gen: gen_c09,
 		judge,
 		shrink_budget: 250,
